@@ -48,11 +48,11 @@ def norm(node) -> str:
 
 
 class Module:
-    def __init__(self, rel: str, path: Path):
+    def __init__(self, rel: str, path: Path, tree=None):
         self.rel = rel
         self.path = path
         self.src = path.read_text(encoding="utf-8")
-        self.tree = ast.parse(self.src, filename=str(path))
+        self.tree = tree if tree is not None else ast.parse(self.src, filename=str(path))
         from .canon import normalize_module
         self.normalised = normalize_module(self.tree)  # keyword -> positional for the callees read positionally, a, b = x, y split, ...
         for parent in ast.walk(self.tree):
@@ -80,12 +80,18 @@ class Index:
         pk = self.repo / "shangrla"
         if not pk.is_dir():
             raise AnalysisError(f"no shangrla package under {self.repo}")
+        raw = {}
         for p in sorted(pk.rglob("*.py")):
             rel = str(p.relative_to(self.repo))
             try:
-                self.modules[rel] = Module(rel, p)
+                raw[rel] = (p, ast.parse(p.read_text(encoding="utf-8"), filename=str(p)))
             except SyntaxError as e:
                 raise AnalysisError(f"cannot parse {rel}: {e}")
+        # whole-package step first: keyword-only parameters nobody in the package passes are their defaults
+        from .canon import specialise_kwonly_defaults
+        self.specialised = specialise_kwonly_defaults([t for _, t in raw.values()])
+        for rel, (p, t) in raw.items():
+            self.modules[rel] = Module(rel, p, tree=t)
         missing = [m for m in EXPECTED_MODULES if m not in self.modules]
         if missing:
             raise AnalysisError(f"expected modules missing: {missing}")
